@@ -7,17 +7,16 @@ package primitives
 // ---- C01 breadth: frame-only contracts ("modifies nothing": every store / append / copy / map write
 // targets memory allocated by the call itself; no functional postcondition is claimed here) ----
 // Circle.ToMesh: Sides rim vertices and the centre; Sides triangles (rim k-1, centre, rim k), the last one closing the fan.
-// The postconditions are stated for a circle without UVs: on the UV path the facts about the two attribute maps and the
-// index array would have to be carried through the UV loop, and those invariants do not discharge (tried); the loop
-// invariants (array sizes, fan indices) are proved on both paths.
+// With UVs the texture coordinates get Sides+1 entries too; the facts about the two attribute maps and the index array are
+// carried through the UV loop (this needed vector2's Normalized to be a pure function: without a contract the call havocked the heap).
 //@ func Circle.ToMesh
 //@   props C01 C02
 //@   returns r
-//@   ensures [C02] well_formed_lengths: c.UVs == nil ==> modeling.sameLen(r)
-//@   ensures [C02] well_formed_indices: c.UVs == nil ==> modeling.idxOK(r)
-//@   ensures [C02] well_formed_topology: c.UVs == nil ==> modeling.topoOK(r)
-//@   ensures [C02] attributes: c.UVs == nil ==> has(r.v3Data, "Position") && has(r.v3Data, "Normal") && r.topology == modeling.TriangleTopology
-//@   ensures [C02] counts: c.UVs == nil ==> len(r.indices) == 3 * c.Sides && len(r.v3Data["Position"]) == c.Sides + 1
+//@   ensures [C02] well_formed_lengths: modeling.sameLen(r)
+//@   ensures [C02] well_formed_indices: modeling.idxOK(r)
+//@   ensures [C02] well_formed_topology: modeling.topoOK(r)
+//@   ensures [C02] attributes: has(r.v3Data, "Position") && has(r.v3Data, "Normal") && r.topology == modeling.TriangleTopology
+//@   ensures [C02] counts: len(r.indices) == 3 * c.Sides && len(r.v3Data["Position"]) == c.Sides + 1
 //@   loop 1:
 //@     invariant [C02] rim: 0 <= sideIndex && sideIndex <= c.Sides && len(vertices) == c.Sides + 1 && len(normals) == c.Sides + 1 && fresh(vertices) && fresh(normals) && ref(vertices) != ref(normals)
 //@   loop 2:
@@ -25,6 +24,9 @@ package primitives
 //@     invariant [C02] fan_indices: forall k int :: 0 <= k && k < len(tris) ==> 0 <= tris[k] && tris[k] <= c.Sides
 //@   loop 3:
 //@     invariant [C02] uv_rim: 0 <= sideIndex && sideIndex <= c.Sides && len(uvs) == c.Sides + 1 && fresh(uvs)
+//@     invariant [C02] maps_kept: has(meshV3Data, "Position") && has(meshV3Data, "Normal") && len(meshV3Data["Position"]) == c.Sides + 1 && len(meshV3Data["Normal"]) == c.Sides + 1
+//@     invariant [C02] only_two_attributes: (forall k string :: has(meshV3Data, k) ==> k == "Position" || k == "Normal") && (forall k string :: !has(meshV2Data, k))
+//@     invariant [C02] indices_kept: len(tris) == 3 * c.Sides && (forall k int :: 0 <= k && k < len(tris) ==> 0 <= tris[k] && tris[k] <= c.Sides)
 // Cone.ToMesh: Sides rim vertices and the apex, one triangle (rim i, apex, rim i+1) per side, the last one closing on rim 0;
 // positions and texture coordinates have Sides+1 entries.
 //@ func Cone.ToMesh
